@@ -7,6 +7,7 @@ import (
 	"fmt"
 	"math/rand"
 	"strconv"
+	"strings"
 	"time"
 
 	"Havoc/pkg/packager"
@@ -24,8 +25,8 @@ type routeState struct {
 	keys map[string]refdemon.Keys
 	req  uint32
 
-	first  string    // the hop that talks to the listener
-	expect []expTask // wrapped tasks queued on the first hop and not yet collected, in order
+	first  string        // the hop that talks to the listener
+	expect []expTask     // wrapped tasks queued on the first hop and not yet collected, in order
 	final  refdemon.Task // the innermost task of the last unwrap
 	fileID uint32        // memfile id seen in the last chunk
 	index  map[string]int
@@ -78,6 +79,27 @@ func (s *routeState) issue(target string, req uint32, d, j int) (string, bool) {
 	pk.Body.SubEvent = packager.Type.Session.Input
 	pk.Body.Info = map[string]any{"DemonID": ag.NameID, "CommandID": "11", "TaskID": fmt.Sprintf("%08X", req), "CommandLine": "sleep", "Arguments": fmt.Sprintf("%d;%d", d, j)}
 	return guarded(func() { s.w.TS.DispatchEvent(pk) }, 8*time.Second)
+}
+
+// clearTasks is "task clear" typed in the agent's console
+func (s *routeState) clearTasks(target string, req uint32) (string, bool) {
+	ag := s.w.Agent(s.ids[target])
+	pk := packager.Package{}
+	pk.Head.Event = packager.Type.Session.Type
+	pk.Head.User = "neo"
+	pk.Body.SubEvent = packager.Type.Session.Input
+	pk.Body.Info = map[string]any{"DemonID": ag.NameID, "CommandID": "Teamserver", "Command": "task::clear", "TaskID": fmt.Sprintf("%08X", req), "CommandLine": "task clear"}
+	return guarded(func() { s.w.TS.DispatchEvent(pk) }, 8*time.Second)
+}
+
+// relayed wraps a package of the hop at position `from` of the chain once per hop above it
+func (s *routeState) relayed(chain []string, from int, pkt []byte) []byte {
+	for i := from - 1; i >= 0; i-- {
+		wb := &refdemon.Buf{}
+		wb.I32(refdemon.PivotSmbCommand).Bytes(pkt)
+		pkt = refdemon.Packages(s.ids[chain[i]], s.keys[chain[i]], []refdemon.Sub{{Cmd: refdemon.CmdPivot, Body: wb.B}})
+	}
+	return pkt
 }
 
 // issueUpload pushes a small file to the target ("upload"): the file's bytes as a chunk task, then the command that names it
@@ -235,7 +257,41 @@ func RunRoute(behs [][]Step, tr *Trace, env Env, sum *Summary) {
 						fail(si, map[bool]string{true: "hang", false: "panic"}[rr.Timeout], "LateDisconnect", firstLines(rr.Panic, 14))
 					}
 					res["ok"] = true
-				case "Down":
+				case "Rekey":
+					// the operator asks hop `owner` to check in; the request travels down; the answer carries new key material
+					ag := w.Agent(s.ids[owner])
+					pk := packager.Package{}
+					pk.Head.Event, pk.Head.User, pk.Body.SubEvent = packager.Type.Session.Type, "neo", packager.Type.Session.Input
+					pk.Body.Info = map[string]any{"DemonID": ag.NameID, "CommandID": "100", "TaskID": fmt.Sprintf("%08X", req), "CommandLine": "checkin"}
+					if p, to := guarded(func() { w.TS.DispatchEvent(pk) }, 8*time.Second); p != "" || to {
+						fail(si, map[bool]string{true: "hang", false: "panic"}[to], "Issue", firstLines(p, 14))
+						break
+					}
+					if rr := w.Request(refdemon.CheckIn(s.ids[chain[0]], s.keys[chain[0]])); rr.Panic != "" || rr.Timeout || rr.Status != 200 {
+						fail(si, "panic", "CheckIn", firstLines(rr.Panic, 14))
+						break
+					}
+					nk := world.KeysFor(env.Seed+int64(bi)*31+int64(si), 40+si, false)
+					cb := append(append(append([]byte{}, nk.Key...), nk.IV...), refdemon.MetaBody(s.ids[owner], refdemon.DefaultMeta(owner))...)
+					pkt := refdemon.Packages(s.ids[owner], s.keys[owner], []refdemon.Sub{{Cmd: refdemon.CmdCheckin, Req: req, Body: cb}})
+					rr := w.RequestWith(s.relayed(chain, s.index[owner], pkt), 8*time.Second)
+					if rr.Panic != "" || rr.Timeout {
+						fail(si, map[bool]string{true: "hang", false: "panic"}[rr.Timeout], "Rekey", firstLines(rr.Panic, 14))
+						break
+					}
+					s.keys[owner] = nk
+					res["ok"] = true
+				case "Restart":
+					if pan, to := guarded(func() { must(w.Restart()) }, 30*time.Second); pan != "" || to {
+						if strings.Contains(pan, "harness-error") {
+							panic(pan)
+						}
+						fail(si, map[bool]string{true: "hang", false: "panic"}[to], "Restart", firstLines(pan, 16))
+						break
+					}
+					s.expect = nil // what waited in the queues went with the process
+					res["ok"] = true
+				case "Down", "DownClear":
 					// two tasks for the target before the first hop checks in: every wrapped task queued so far
 					// (also those left over from earlier steps) must come out, in order, each intact
 					sibBefore := fmt.Sprintf("%v", w.Snapshot().Queues[fmt.Sprintf("%08x", s.ids["sib"])])
@@ -259,6 +315,15 @@ func RunRoute(behs [][]Step, tr *Trace, env Env, sum *Summary) {
 					}
 					if failed {
 						break
+					}
+					if op == "DownClear" {
+						// the operator empties the queue of a hop in the middle
+						s.req++
+						if p, to := s.clearTasks(owner, s.req); p != "" || to {
+							fail(si, map[bool]string{true: "hang", false: "panic"}[to], "Clear", firstLines(p, 14))
+							break
+						}
+						sum.Counters["cleared-under-waiting-tasks"]++
 					}
 					rr := w.Request(refdemon.CheckIn(s.ids[chain[0]], s.keys[chain[0]]))
 					if rr.Panic != "" || rr.Timeout || rr.Status != 200 {
@@ -331,11 +396,7 @@ func RunRoute(behs [][]Step, tr *Trace, env Env, sum *Summary) {
 					b := &refdemon.Buf{}
 					b.I32(uint32(val)).I32(33)
 					pkt := refdemon.Packages(s.ids[target], s.keys[target], []refdemon.Sub{{Cmd: refdemon.CmdSleep, Req: req, Body: b.B}})
-					for i := len(chain) - 2; i >= 0; i-- {
-						wb := &refdemon.Buf{}
-						wb.I32(refdemon.PivotSmbCommand).Bytes(pkt)
-						pkt = refdemon.Packages(s.ids[chain[i]], s.keys[chain[i]], []refdemon.Sub{{Cmd: refdemon.CmdPivot, Body: wb.B}})
-					}
+					pkt = s.relayed(chain, len(chain)-1, pkt)
 					before := map[string]int{}
 					for h, id := range s.ids {
 						if a := w.Agent(id); a != nil {
